@@ -39,7 +39,7 @@ def no_three_collinear(pts):
 
 @st.composite
 def conic_case(draw, tier="quick"):
-    what = draw(st.sampled_from(["from_points", "from_crossratio", "from_tangent", "from_foci"]))
+    what = draw(st.sampled_from(["from_points", "from_crossratio", "from_tangent", "from_foci", "from_points_complex"]))
     return {"what": what, "pts": [[draw(C.ints(6)), draw(C.ints(6))] for _ in range(5)], "line": draw(C.ivec(3, 6)), "s": [draw(C.scale()) for _ in range(5)],
             "diag": draw(st.sampled_from([0, 0, 1, 2, 3]))}
 
@@ -74,6 +74,39 @@ def run_conic(c):
             if f:
                 return ck.result() + [f]
             ck.check(C.peq_all(con2.array, con.array, 2, 1e-6), "from_crossratio:agrees-with-from_points", (con2.array.tolist(), con.array.tolist()))
+        return ck.result()
+    if what == "from_points_complex":
+        # five points with Gaussian-integer coordinates (imaginary parts from the fields 'line' and 's'), in every argument
+        # position; and the circle as the conic through three real points and the circular points I, J
+        im = [[c["line"][i % 3] + i - 2, (c["line"][(i + 1) % 3] * (i + 1)) % 5 - 2] for i in range(5)]
+        Z = [np.array([complex(p[0], q[0]), complex(p[1], q[1]), 1.0]) for p, q in zip(pts, im)]
+        if any(abs(np.linalg.det(np.stack([Z[i], Z[j], Z[k]]))) < 1e-9 for i, j, k in combinations(range(5), 3)):
+            raise Skip("three collinear points")
+        rot = c.get("diag", 0) % 5
+        order = list(range(rot, 5)) + list(range(rot))
+        con, f = call("from_points(complex)", Conic.from_points, *[Point(Z[i]) for i in order])
+        if f:
+            return [f]
+        A = np.asarray(con.array, dtype=complex)
+        if ck.check(np.max(np.abs(A)) > 1e-9 and np.all(np.isfinite(A)), "from_points:complex:non-zero-matrix", A.tolist()):
+            A = A / np.max(np.abs(A))
+            for i in range(5):
+                z = Z[i] / np.max(np.abs(Z[i]))
+                ck.check(abs(z @ A @ z) < 1e-7, "from_points:complex:contains-defining-point", (i, order, complex(z @ A @ z)))
+        three = [np.array([float(p[0]), float(p[1]), 1.0]) for p in pts[:3]]
+        if abs(np.linalg.det(np.stack(three))) > 0.5:
+            for tag, args in (("p,q,r,I,J", [Point(x) for x in three] + [G.I, G.J]), ("I,J,p,q,r", [G.I, G.J] + [Point(x) for x in three])):
+                cir, f = call("from_points(circle)", Conic.from_points, *args)
+                if f:
+                    ck.add(f)
+                    continue
+                B = np.asarray(cir.array, dtype=complex)
+                if not ck.check(np.max(np.abs(B)) > 1e-9, f"from_points:circle({tag}):non-zero-matrix", B.tolist()):
+                    continue
+                B = B / B[0, 0] if abs(B[0, 0]) > 1e-12 else B
+                ck.check(abs(B[0, 0] - B[1, 1]) < 1e-7 and abs(B[0, 1]) < 1e-7, f"from_points:circle({tag}):is-a-circle", B.tolist())
+                for x in three:
+                    ck.check(abs(x @ B @ x) < 1e-6 * max(1.0, np.max(np.abs(B))) * max(1.0, np.max(np.abs(x)) ** 2), f"from_points:circle({tag}):contains-point", complex(x @ B @ x))
         return ck.result()
     if what == "from_tangent":
         four = pts[:4]
